@@ -119,3 +119,19 @@ Lemma ready_iff_connected_rule :
   forallb (fun r => Bool.eqb (rule_sets_connected r) (rule_announces_ready r) &&
                     (negb (rule_sets_connected r) || match snd (fst r) with GFacade => true | _ => false end)) rules = true.
 Proof. vm_compute. reflexivity. Qed.
+
+(* across awaits: every rule that announces CLIENT_FACADE_TEARDOWN is guarded on the state, and the FIRST thing it does - before it
+   awaits anything, the client's handler included - is to move the state to one that is outside the guard of every such rule.
+   So however long the client's handlers stay suspended and whichever task raises the next event, a second announcement needs a
+   new CONNECTED, i.e. a new facade-ready. *)
+Definition announces_teardown (r : list event * guard * list action) : bool :=
+  existsb (fun a => match a with ANest CLIENT_FACADE_TEARDOWN => true | _ => false end) (snd r).
+Definition first_set (r : list event * guard * list action) : option sstate := match snd r with ASet x :: _ => Some x | _ => None end.
+Definition guard_states (r : list event * guard * list action) : option (list sstate) := match snd (fst r) with GState g => Some g | _ => None end.
+Definition teardown_rules : list (list event * guard * list action) := filter announces_teardown rules.
+Lemma teardown_rules_exclude_each_other :
+  forallb (fun r1 => forallb (fun r2 => match first_set r1, guard_states r2 with
+                                        | Some x, Some g => negb (existsb (sstate_eqb x) g)
+                                        | _, _ => false end) teardown_rules) teardown_rules = true /\
+  Nat.leb 3 (List.length teardown_rules) = true.
+Proof. vm_compute. split; reflexivity. Qed.
